@@ -200,12 +200,13 @@ Fixpoint start_state (back : nat) (fuel : nat) (file : bytes) (st : sstate) : op
     end
   end.
 
-Fixpoint win_scan (caret : bool) (fuel : nat) (file : bytes) (st : sstate) : list (nat * marker) :=
+(* ffuel: the fuel of each Find call (4 * length file + 4 suffices; computed once) *)
+Fixpoint win_scan (caret : bool) (fuel ffuel : nat) (file : bytes) (st : sstate) : list (nat * marker) :=
   match fuel with
   | O => []
   | S fuel' =>
-    match win_find caret (4 * length file + 4) file st with
-    | Some (p, m, st') => (p, m) :: win_scan caret fuel' file st'
+    match win_find caret ffuel file st with
+    | Some (p, m, st') => (p, m) :: win_scan caret fuel' ffuel file st'
     | None => []
     end
   end.
@@ -330,13 +331,13 @@ Definition scan_ideal (data : bytes) : option (list (nat * marker)) :=
   end.
 Definition scan_windows (data : bytes) : option (list (nat * marker)) :=
   match start_state 1 (S (S (length data))) data {| st_base := 0; st_pos := 0; st_used := 0 |} with
-  | Some (_, _, st) => Some (win_scan false (S (length data)) data st)
+  | Some (_, _, st) => Some (win_scan false (S (length data)) (4 * length data + 4) data st)
   | None => None
   end.
 (* the search BEFORE fix F24 (documentation): `^` at every slice start, nothing given back *)
 Definition scan_windows_pre_F24 (data : bytes) : option (list (nat * marker)) :=
   match start_state 0 (S (S (length data))) data {| st_base := 0; st_pos := 0; st_used := 0 |} with
-  | Some (_, _, st) => Some (win_scan true (S (length data)) data st)
+  | Some (_, _, st) => Some (win_scan true (S (length data)) (4 * length data + 4) data st)
   | None => None
   end.
 
